@@ -248,7 +248,12 @@ class Inductor(Entity):
 
         # Schedule poll after one smoothed interval
         wait_s = self._smoothed_interval if self._smoothed_interval else 0.01
-        poll_time = now + Duration.from_seconds(wait_s)
+        wait = Duration.from_seconds(wait_s)
+        # Guard: a sub-nanosecond interval truncates to zero; re-arming the poll
+        # at now+0 would spin forever at a frozen clock, so ensure progress.
+        if wait <= Duration.ZERO:
+            wait = Duration(1)
+        poll_time = now + wait
         return [
             Event(
                 time=poll_time,
